@@ -9,6 +9,7 @@
   is a single entry); `pick g ds` is the random pick with the next PRNG word.
 -/
 import XMT.GroupLemmas
+import XMT.ClientLoopSwitch
 namespace XMT.Props.C17
 open XMT XMT.Group
 
@@ -318,5 +319,26 @@ example : (match run (exG selSemiRoundRobin) [(.switch false, []), (.switch true
     | .ok (g, os) => (g.cur.map (·.ptr), os)
     | .panic _ => (none, [])) = (some 2, [.switched true, .switched false, .switched true]) := by
   decide
+
+/-! ### the consumer: what `(*Session).listen` reports to the selector -/
+
+/-- Over the whole connection loop of a client Session (model XMT/ClientLoop.lean of c2/session.go
+`listen`; any configuration, PRNG words, number of turns, and ANY script of connect errors, failed
+exchanges and successful exchanges): `Switch` is called once per connection attempt, and the k-th
+call is given `true` exactly when attempt k-1 failed; the first call is given `false`. "Last-valid
+changes only after a reported failure" rests on this report. -/
+theorem listen_reports_failures (c : Client.Cfg) (q : Nat → Nat) (script : Nat → Client.Res) (fuel : Nat) (now : Int) :
+    (Client.run c q script fuel { now := now }).sw =
+      (List.range (Client.run c q script fuel { now := now }).ci).map
+        (fun k => decide (k > 0) && (script (k - 1) != .ok)) := by
+  have h := Client.run_sw c q script 0 fuel { now := now } ⟨⟨Nat.le_refl _, rfl⟩, rfl⟩
+  obtain ⟨_, h2⟩ := h
+  rw [h2]
+  simp only [Nat.sub_zero, Nat.zero_add]
+  rfl
+
+-- concrete: exchange fails, connect fails, exchange succeeds, … : reports false, true, true, false
+example : (Client.run { sleep := 1000000, jitter := 0, kill := none, work := none, off := 0 } (fun _ => 0)
+    (fun k => [Client.Res.sessErr, .fail, .ok, .ok].getD k .fail) 4 { now := 0 }).sw = [false, true, true, false] := by decide
 
 end XMT.Props.C17
